@@ -147,7 +147,7 @@ func (g *Gen) RefEqLaxBytes(t *Ty) string {
 		body = fmt.Sprintf("\tif a == nil || b == nil {\n\t\treturn a == nil && b == nil\n\t}\n\tif len(a) != len(b) {\n\t\treturn false\n\t}\n\tfor k, v := range a {\n\t\tw, ok := b[k]\n\t\tif !ok || !%s(v, w) {\n\t\t\treturn false\n\t\t}\n\t}\n\treturn true\n", g.RefEqLaxBytes(u.Elem))
 	case "struct":
 		var sb strings.Builder
-		for _, f := range u.Fields {
+		for _, f := range namedFields(u.Fields) {
 			if f.T.K == "slice" && f.T.Elem.K == "basic" && f.T.Elem.Name == "uint8" {
 				fmt.Fprintf(&sb, "\tif len(a.%s) != len(b.%s) {\n\t\treturn false\n\t}\n\tfor i := 0; i < len(a.%s); i++ {\n\t\tif a.%s[i] != b.%s[i] {\n\t\t\treturn false\n\t\t}\n\t}\n", f.Name, f.Name, f.Name, f.Name, f.Name)
 				continue
@@ -352,7 +352,7 @@ func (g *Gen) RefEqBits(t *Ty) string {
 		body = fmt.Sprintf("\tif a == nil || b == nil {\n\t\treturn a == nil && b == nil\n\t}\n\tif len(a) != len(b) {\n\t\treturn false\n\t}\n\tfor k, v := range a {\n\t\tw, ok := b[k]\n\t\tif !ok || !%s(v, w) {\n\t\t\treturn false\n\t\t}\n%s\t}\n\treturn true\n", g.RefEqBits(u.Elem), keyCheck)
 	case "struct":
 		var sb strings.Builder
-		for _, f := range u.Fields {
+		for _, f := range namedFields(u.Fields) {
 			fmt.Fprintf(&sb, "\tif !%s(a.%s, b.%s) {\n\t\treturn false\n\t}\n", g.RefEqBits(f.T), f.Name, f.Name)
 		}
 		sb.WriteString("\treturn true\n")
